@@ -14,7 +14,10 @@ RULE = ("matrices of every data type (dna, rna, protein, standard incl. custom s
         "PHYLIP strict/relaxed x sequential/interleaved, FASTA, NeXML with explicit columns, concatenate, export_character_indices, "
         "'assembled': every row put in place another way - m[t]=list / coerced str / generic CharacterDataSequence / sequence object of "
         "another matrix type / own type, new_sequence, short rows completed by fill(), missing rows by fill_taxa()+fill() or pack(), "
-        "add_/update_/extend_sequences from a second matrix, then optionally copy-constructed / cloned / deep-copied) "
+        "add_/update_/extend_sequences from a second matrix, then optionally copy-constructed / cloned / deep-copied; 'derived': a matrix "
+        "with explicit per-column character types (parsed from NeXML or built with character_type=) put through 1-3 of "
+        "export_character_indices / export_character_subset (single column, trailing block, scattered, reversed, repeated indices), "
+        "concatenate / extend_sequences with a second typed matrix, del seq[i] in every row, clone / copy construction / deepcopy) "
         "x target format x writer/reader options, 1xN and Nx1 included, conversion chains of two formats, data sets with 1-3 "
         "namespaces x suppress_block_titles in {default, None, False, True} x {nexus, nexml}; NEXUS data sets also x unquoted_underscores "
         "x preserve_spaces x reader preserve_underscores (where the taxon labels survive it) with namespace / matrix / tree-list labels "
@@ -558,6 +561,8 @@ def build(dendropy, spec):
         return m, [[l, list(rt["rows"][rt["labels"].index(l)])] for l in order], sa
     if via == "assembled":
         return build_assembled(dendropy, spec, cls, mk, sa)
+    if via == "derived":
+        return build_derived(dendropy, spec, cls, mk, sa)
     if via in ("nexus", "phylip", "fasta", "nexml"):
         text = rt["text"] if "text" in rt else compose_nexus(rt["params"])
         kw = dict(rt.get("kw", {}))
@@ -648,6 +653,125 @@ def build_assembled(dendropy, spec, cls, mk, sa):
         import copy
         m = copy.deepcopy(m)
     return m, [[l, list(r)] for l, r in zip(rt["labels"], rt["rows"])], sa
+
+
+def build_derived(dendropy, spec, cls, mk, sa):
+    """a matrix DERIVED from one with explicit per-column character types (read from a NeXML document that defines its
+    <char> columns, or built cell by cell with `character_type=`): export_character_indices / export_character_subset
+    (any selection: non-prefix, single column, given out of order or with repeats), concatenate / extend_sequences with a
+    second such matrix, columns pruned by `del seq[i]` in every row, clone / copy construction / deepcopy — in sequences
+    of one to three steps.  Reference = the selected columns of the input values."""
+    import copy
+    dt, rt = spec["dt"], spec["route"]
+    cont = dt == "continuous"
+
+    def typed(tns, labels, rows, like=None):
+        # a second matrix shares the first one's state alphabet (states of a foreign alphabet are the known finding
+        # `foreign-states`, not this route's subject)
+        kw = dict(mk)
+        if like is not None and dt == "standard":
+            kw = {"default_state_alphabet": like.default_state_alphabet}
+        m = cls(taxon_namespace=tns, **kw)
+        ncol = max(len(r) for r in rows)
+        cols = []
+        for j in range(ncol):
+            ct = m.new_character_type()
+            if not cont:
+                ct.state_alphabet = m.default_state_alphabet
+            m.character_types.append(ct)
+            cols.append(ct)
+        for l, r in zip(labels, rows):
+            seq = m.new_sequence(tns.require_taxon(label=l))
+            vals = [float(x) for x in r] if cont else list(m.coerce_values(r))
+            for v, ct in zip(vals, cols):
+                seq.append(v, character_type=ct)
+        return m
+
+    if rt["source"] == "nexml":
+        m = cls.get(data=compose_nexml(dt, rt["labels"], rt["rows"], spec.get("std")), schema="nexml")
+    else:
+        m = typed(dendropy.TaxonNamespace(), rt["labels"], rt["rows"])
+    cols = [[r[j] for r in rt["rows"]] for j in range(len(rt["rows"][0]))]
+    for op in rt["ops"]:
+        k = op["op"]
+        if k == "export_idx":
+            m = m.export_character_indices(list(op["indices"]))
+            cols = [cols[j] for j in sorted(set(op["indices"]))]
+        elif k == "export_subset":
+            cs = m.new_character_subset(label=op["label"], character_indices=list(op["indices"]))
+            m = m.export_character_subset(op["label"] if op.get("by_label") else cs)
+            cols = [cols[j] for j in sorted(set(op["indices"]))]
+        elif k in ("concat", "extend"):
+            m2 = typed(m.taxon_namespace, rt["labels"], op["rows"], like=m)
+            if k == "concat":
+                m = cls.concatenate([m, m2])
+            else:
+                m.extend_sequences(m2)
+            cols = cols + [[r[j] for r in op["rows"]] for j in range(len(op["rows"][0]))]
+        elif k == "del":
+            for t in m:
+                seq = m[t]
+                for j in sorted(set(op["indices"]), reverse=True):
+                    del seq[j]
+            cols = [c for j, c in enumerate(cols) if j not in set(op["indices"])]
+        elif k == "clone":
+            m = m.clone()
+        elif k == "copy":
+            m = cls(m)
+        elif k == "deepcopy":
+            m = copy.deepcopy(m)
+        else:
+            raise ValueError(k)
+    return m, [[l, [c[i] for c in cols]] for i, l in enumerate(rt["labels"])], sa
+
+
+def gen_derived_route(rng, dt, labels, rows, syms):
+    ncol = len(rows[0])
+    source = "nexml" if (dt in SUPPORTED["nexml"] and rng.random() < 0.6) else "typed"
+    ops = []
+    n = ncol
+    for _ in range(rng.randint(1, 3)):
+        kinds = ["export_idx", "export_idx", "export_subset", "extend", "del", "clone", "copy", "deepcopy"]
+        if dt != "standard":
+            kinds.append("concat")            # known finding: concatenated standard matrices list a fresh alphabet
+        k = rng.choice(kinds)
+        if k in ("export_idx", "export_subset"):
+            r = rng.random()
+            if r < 0.25:
+                idx = [rng.randrange(n)]                                   # a single column
+            elif r < 0.5 and n >= 2:
+                a = rng.randint(1, n - 1)
+                idx = list(range(a, n))                                    # a trailing block
+            elif r < 0.6:
+                idx = list(range(rng.randint(1, n)))                       # a leading block
+            else:
+                idx = [j for j in range(n) if rng.random() < 0.5] or [n - 1]
+            if rng.random() < 0.4:
+                idx = idx[::-1]                                            # given in reverse order
+            if rng.random() < 0.2:
+                idx = idx + idx[:1]
+            op = {"op": k, "indices": idx}
+            if k == "export_subset":
+                op["label"] = "cs%d" % len(ops)
+                op["by_label"] = rng.random() < 0.5
+            ops.append(op)
+            n = len(set(idx))
+        elif k in ("concat", "extend"):
+            w = rng.randint(1, 3)
+            ops.append({"op": k, "rows": gen_rows(rng, dt, len(labels), w, syms)})
+            n += w
+        elif k == "del":
+            # `del seq[i]` cannot renumber the character subsets concatenate() records; export clears them
+            if n < 2 or (any(o["op"] == "concat" for o in ops) and not str(ops[-1]["op"]).startswith("export")):
+                continue
+            idx = sorted(rng.sample(range(n), rng.randint(1, n - 1)))
+            ops.append({"op": "del", "indices": idx})
+            n -= len(idx)
+        else:
+            ops.append({"op": k})
+    if not ops:
+        ops = [{"op": "export_idx", "indices": [ncol - 1]}]
+    return {"via": "derived", "source": source, "labels": labels, "rows": rows, "ops": ops}
 
 
 ASSEMBLE_HOWS = ["list", "str", "generic", "other", "own", "new_sequence", "fill", "generic+fill", "fill_taxa", "pack", "add", "update",
@@ -1127,9 +1251,9 @@ def gen_matrix_spec(rng, dt=None, via=None, fmt=None, dims=None):
     syms = SYMS.get(dt)
     if dt == "standard" and std:
         syms = std + "-?"
-    routes = ["dict", "dict", "concatenate", "export", "subset", "nexus", "phylip", "fasta", "nexml", "assembled", "assembled"]
+    routes = ["dict", "dict", "concatenate", "export", "subset", "nexus", "phylip", "fasta", "nexml", "assembled", "assembled", "derived", "derived"]
     if dt == "continuous":
-        routes = ["dict", "dict", "concatenate", "export", "nexus", "phylip", "nexml", "assembled", "assembled"]
+        routes = ["dict", "dict", "concatenate", "export", "nexus", "phylip", "nexml", "assembled", "assembled", "derived", "derived"]
     if dt == "nucleotide":
         routes = [x for x in routes if x != "nexml"]
     if dt in ("restriction", "infinite"):
@@ -1151,7 +1275,7 @@ def gen_matrix_spec(rng, dt=None, via=None, fmt=None, dims=None):
     labels = gen_labels(rng, ntax, style)
     if fmt == "phylip" and not labels_admissible(fmt, w, r, labels):
         labels = gen_labels(rng, ntax, "nospace")
-    if (fmt == "nexml" or via == "nexml") and not all(nexml_safe(l) for l in labels):
+    if (fmt == "nexml" or via in ("nexml", "derived")) and not all(nexml_safe(l) for l in labels):
         labels = gen_labels(rng, ntax, "nospace")
     rows = gen_rows(rng, dt, ntax, nchar, syms)
     spec = {"kind": "matrix", "dt": dt, "std": std, "target": fmt, "w": w, "r": r, "via": via}
@@ -1162,6 +1286,8 @@ def gen_matrix_spec(rng, dt=None, via=None, fmt=None, dims=None):
         spec["route"] = {"via": "dict", "labels": labels, "rows": rows, "input": inp, "as_str": dt != "continuous" and rng.random() < 0.6}
     elif via == "assembled":
         spec["route"] = gen_assembled_route(rng, dt, labels, rows, syms)
+    elif via == "derived":
+        spec["route"] = gen_derived_route(rng, dt, labels, rows, syms)
     elif via == "concatenate":
         cut = sorted({0, nchar} | {rng.randint(1, max(1, nchar - 1)) for _ in range(rng.randint(1, 2))}) if nchar > 1 else [0, nchar]
         parts = [[row[a:b] for row in rows] for a, b in zip(cut, cut[1:])]
@@ -1776,6 +1902,8 @@ def run(ctx):
                 exec_spec(ctx, dendropy, gen_matrix_spec(rng, dt=dt, via="dict", fmt=f), pending)
                 for _ in range(2):
                     exec_spec(ctx, dendropy, gen_matrix_spec(rng, dt=dt, via="assembled", fmt=f), pending)
+                for _ in range(3 if f == "nexml" else 1):
+                    exec_spec(ctx, dendropy, gen_matrix_spec(rng, dt=dt, via="derived", fmt=f), pending)
     flush(ctx, pending)
     ncases = ctx.pick(7000, 120000)
     for k in range(ncases):
@@ -1797,7 +1925,7 @@ def run(ctx):
         ctx.budget_s = 840
         # exhaustive small scope: every data type x route x target format x every dimension pair <= 3x3 (+ 1x71, 3x141)
         for dt in DTYPES:
-            for via in ("dict", "concatenate", "export", "subset", "nexus", "phylip", "fasta", "nexml", "assembled", "assembled"):
+            for via in ("dict", "concatenate", "export", "subset", "nexus", "phylip", "fasta", "nexml", "assembled", "assembled", "derived", "derived"):
                 for f in FORMATS:
                     if not (dt in SUPPORTED[f] or (f == "nexus" and dt in ("restriction", "infinite"))):
                         continue
